@@ -482,6 +482,60 @@ static void do_prim(const J& g, W& w) {
     poly.clear();
 }
 
+// closed Hobby interpolation: the curve through knots p0..p(n-1) (cycle) is the same curve whichever
+// knot it is started from, with the angle constraints and tensions rotated along
+static void closed_itp(const J& g, size_t shift, std::vector<Vec2>& poly, bool& fin) {
+    size_t n = g["pts"].size();
+    std::vector<Vec2> P(n);
+    std::vector<double> ang(n);
+    std::vector<char> con(n);
+    std::vector<Vec2> ten(n);
+    for (size_t i = 0; i < n; i++) {
+        size_t k = (i + shift) % n;
+        P[i] = Vec2{(double)g["pts"][k][(size_t)0].i(), (double)g["pts"][k][(size_t)1].i()};
+        ang[i] = (double)g["ang"][k].i() * M_PI / 180.0;
+        con[i] = g["cons"][k].t() ? 1 : 0;
+        ten[i] = Vec2{(double)g["tens"][k][(size_t)0].i() / 4.0, (double)g["tens"][k][(size_t)1].i() / 4.0};
+    }
+    double tol = pow(10.0, -(double)g["tol"].i());
+    Curve c = {};
+    c.init(P[0], tol);
+    Array<Vec2> rest = {};
+    for (size_t i = 1; i < n; i++) rest.append(P[i]);
+    // arrays have one entry per knot, the current point first
+    c.interpolation(rest, ang.data(), (bool*)con.data(), ten.data(), 1, 1, true, false);
+    poly.assign(c.point_array.items, c.point_array.items + c.point_array.count);
+    for (auto& v : poly)
+        if (!std::isfinite(v.x) || !std::isfinite(v.y)) fin = false;
+    rest.clear();
+    c.clear();
+}
+static void do_itpclosed(const J& g, W& w) {
+    double tol = pow(10.0, -(double)g["tol"].i());
+    std::vector<Vec2> A, B;
+    bool fin = true;
+    closed_itp(g, 0, A, fin);
+    closed_itp(g, (size_t)g["shift"].i(), B, fin);
+    double dev = 1e6, knots = 0, closed = 1e6;
+    if (fin && A.size() >= 2 && B.size() >= 2) {
+        std::vector<Vec2> Ac = A, Bc = B;
+        Ac.push_back(A[0]);
+        Bc.push_back(B[0]);
+        dev = 0;
+        for (auto& p : A) dev = fmax(dev, polyline_dist(p, Bc));
+        for (auto& p : B) dev = fmax(dev, polyline_dist(p, Ac));
+        for (size_t i = 0; i < g["pts"].size(); i++) {
+            Vec2 k = Vec2{(double)g["pts"][i][(size_t)0].i(), (double)g["pts"][i][(size_t)1].i()};
+            knots = fmax(knots, fmax(polyline_dist(k, Ac), polyline_dist(k, Bc)));
+        }
+        closed = fmax((A.back() - A.front()).length(), (B.back() - B.front()).length());
+    }
+    w.kb("finite", fin).kv("na", (int64_t)A.size()).kv("nb", (int64_t)B.size());
+    w.kv("dev_milli", (int64_t)fmin(2e9, ceil(dev / (tol * 1e-3))));
+    w.kv("knots_milli", (int64_t)fmin(2e9, ceil(knots / (tol * 1e-3))));
+    w.kv("closed_milli", (int64_t)fmin(2e9, ceil(closed / (tol * 1e-3))));
+}
+
 int main(int argc, char** argv) {
     if (argc < 3) return 2;
     gdstk::set_error_logger(NULL);
@@ -493,6 +547,7 @@ int main(int argc, char** argv) {
         w.begin_obj().ks("e", g["k"].s()).key("g").raw(line);
         if (g["k"].s() == "curve") do_curve(g, w);
         else if (g["k"].s() == "prim") do_prim(g, w);
+        else if (g["k"].s() == "itpclosed") do_itpclosed(g, w);
         w.end_obj();
         fputs(w.s.c_str(), out);
         fputc('\n', out);
